@@ -286,7 +286,7 @@ class CheckerOnMutants(NativeCase):
 
     def run_native(self, tier):
         n_states = 16 if tier == 'quick' else 64
-        for b in corpus.BASE_BLOCKS:
+        for b in list(corpus.BASE_BLOCKS) + SPLIT_CORPUS:
             instrs = corpus.tokens(b)
             depth = utils.compute_stack_size(plain_names(instrs))
             for opts in (dict(), dict(simplification=False)) if tier != 'quick' else (dict(),):
@@ -326,4 +326,123 @@ _old_cases = cases
 def cases(tier='quick'):
     cs, meta = _old_cases(tier)
     cs.append(CheckerOnMutants())
+    return cs, meta
+
+
+# ---------------------------------------------------------------------------------------------------------------
+# external-checker adapter
+import verification.forves_verification as fv
+from .gates import DummyFile, st_open
+
+
+class ForvesGate(Case):
+    """compare_forves answers "true" only if both sequences were rendered (forves_format returned text) and either there was
+    nothing to compare or the external checker printed true and not false"""
+    prop = 'C05'
+    tier = 'P'
+    name = "compare_forves(gate)"
+    functions = (fv.compare_forves,)
+
+    def make_stubs(self):
+        def st_format(it, a, b):
+            it.trace.append(('format', a, b))
+            return it.cfg['rendering']
+
+        def st_run(it, cmd):
+            it.trace.append(('run', cmd))
+            return it.cfg['output']
+        return {'verification.forves_verification.forves_format': st_format, 'verification.forves_verification.run_command': st_run,
+                'tempfile.mkstemp': lambda it, *a, **k: (99, "/tmp/forves-in"), 'posix.close': lambda it, fd: None,
+                'posix.remove': lambda it, p: None, '_io.open': st_open}
+
+    def run(self, H):
+        rendering = H.choice('rendering', [None, '', '#\nADD\nADD\n500'])
+        output = H.choice('checker_output', ["true\n", "false\n", "parsing error\n", "true\nfalse\n", ""])
+        H.it.cfg = dict(rendering=rendering, output=output)
+        out = H.call(fv.compare_forves, "ADD", "ADD", H.choice('criteria', ["gas", "size"]), True)
+        if out.ok and out.value == "true":
+            H.check('true=>both-sequences-were-rendered', rendering is not None)
+            H.check('true=>nothing-to-compare-or-checker-said-true', rendering == '' or ("true" in output and "false" not in output))
+        elif out.ok:
+            H.check('verdict-is-one-of-the-documented-strings', out.value in ("false", "parsing", "missing", "disabled"))
+        if rendering is None:
+            H.check('rendering-failure=>not-true', not (out.ok and out.value == "true"), info=repr(out))
+
+
+def retokenize(seq):
+    """tokens of one rendered sequence (PUSHn 0x.. / METAPUSH k 0x..) back to the plain form"""
+    out = []
+    i = 0
+    while i < len(seq):
+        t = seq[i]
+        if re.fullmatch("PUSH([0-9]+)", t):
+            out.append("PUSH " + seq[i + 1][2:].lstrip('0') if seq[i + 1][2:].lstrip('0') else "PUSH 0")
+            i += 2
+        elif t == "METAPUSH":
+            out.append("META %s %s" % (seq[i + 1], seq[i + 2]))
+            i += 3
+        else:
+            out.append(t)
+            i += 1
+    return out
+
+
+import re
+
+
+class ForvesRendering(NativeCase):
+    """forves_format renders both sequences faithfully: every optimizable token of the input reappears, in order, with PUSH
+    operands re-attached; an opcode the adapter does not know makes the rendering fail (None), never succeed"""
+    prop = 'C05'
+    name = "forves_format(rendering)"
+    functions = (fv.forves_format, fv.str_to_list, fv.split_bytecode)
+
+    def run_native(self, tier):
+        import io, contextlib
+        n = 0
+        for b in corpus.BASE_BLOCKS:
+            toks = corpus.tokens(b)
+            plain = ' '.join(t if not t.startswith('PUSH ') else t for t in toks)
+            with contextlib.redirect_stderr(io.StringIO()), contextlib.redirect_stdout(io.StringIO()):
+                txt = fv.forves_format(plain, plain)
+            n += 1
+            if txt is None:
+                # must be because of an opcode outside the adapter's vocabulary
+                unknown = [t for t in toks if t.split()[0] not in fv.bytecode_vocab and not t.startswith('PUSH') and
+                           t.split()[0] not in constants_sets()]
+                self.ob('rendering-fails-only-for-opcodes-outside-the-vocabulary', bool(unknown), inputs=dict(block=b), info="no unknown opcode")
+                continue
+            lines = txt.split('\n') if txt else []
+            segs = [lines[i:i + 4] for i in range(0, len(lines), 4)]
+            rendered = []
+            ok = True
+            for sg in segs:
+                if len(sg) != 4 or sg[0] != '#' or sg[3] != '500' or sg[1] != sg[2]:
+                    ok = False
+                    continue
+                rendered += retokenize(sg[2].split(' '))
+            want = [("PUSH " + (t.split()[1].lstrip('0') or '0')) if t.startswith('PUSH ') else t for t in toks if t.split()[0] not in constants_sets()]
+            self.ob('rendered-tokens=input-tokens', ok and rendered == want, inputs=dict(block=b), info=dict(rendered=rendered, want=want))
+        self.assumptions = ("bounded: %d corpus blocks; the external binary itself is outside the scope" % n,)
+
+
+def constants_sets():
+    from .common import constants
+    return set(constants.split_block) | set(constants.end_block) | set(constants.beginning_block)
+
+
+SPLIT_CORPUS = [
+    "PUSH 3 SHR PUSH 0 DUP1 LOG0 PUSH 3 SHR PUSH 0 DUP1 LOG0", "DUP2 DUP2 SUB PUSH 0 DUP1 LOG0 DUP2 DUP2 SUB SWAP2 POP POP",
+    "PUSH 5 PUSH 0 SSTORE PUSH 0 DUP1 LOG0 PUSH 5 PUSH 0 SSTORE", "DUP1 MLOAD PUSH 0 DUP1 LOG0 DUP1 MLOAD ADD",
+    "SLT PUSH 0 DUP1 LOG0 PUSH 7 SWAP1 SDIV", "DUP1 DUP1 GAS POP SUB SWAP1 GAS POP PUSH 4 SWAP1 DIV ADD",
+    "PUSH 1 PUSH 2 PUSH 0 DUP1 LOG0 ADD PUSH 0 DUP1 LOG0 PUSH 3 MUL",
+]
+corpus.BASE_BLOCKS_C05_EXTRA = SPLIT_CORPUS
+
+_cases2 = cases
+
+
+def cases(tier='quick'):
+    cs, meta = _cases2(tier)
+    cs += [ForvesGate(), ForvesRendering()]
     return cs, meta
